@@ -190,11 +190,11 @@ Section P.
     - intros x Hin. unfold updf. destruct (N.eqb x s); [discriminate|auto].
   Qed.
 
-  Lemma vinv_set_actor_sub : forall (st : state) a al mb gt, VInv st ->
+  Lemma vinv_set_actor_sub : forall (st : state) a al sd mb gt, VInv st ->
     (forall it, In it (mb ++ gt) -> In it (a_mbox (actors C st a) ++ a_got (actors C st a))) ->
-    VInv (set_actor C st a (mkActor al mb gt)).
+    VInv (set_actor C st a (mkActor al sd mb gt)).
   Proof.
-    intros st a al mb gt I Hsub. destruct I as [Il Ir Ic It In_ Io Io2 Ind].
+    intros st a al sd mb gt I Hsub. destruct I as [Il Ir Ic It In_ Io Io2 Ind].
     constructor; cbn; auto.
     intros a' x r Hin. unfold updf in Hin. destruct (N.eqb a' a) eqn:Ea.
     - apply N.eqb_eq in Ea. subst a'. cbn in Hin. apply (It a x r). apply Hsub. assumption.
@@ -204,7 +204,7 @@ Section P.
   Lemma vinv_set_actor_push : forall (st : state) s sb r, VInv st ->
     tasks C st s = Some sb ->
     VInv (set_actor C st (s_actor C sb)
-            (mkActor true (a_mbox (actors C st (s_actor C sb)) ++ [(s, r)])
+            (mkActor true (a_started (actors C st (s_actor C sb))) (a_mbox (actors C st (s_actor C sb)) ++ [(s, r)])
                      (a_got (actors C st (s_actor C sb))))).
   Proof.
     intros st s sb r I E. destruct I as [Il Ir Ic It In_ Io Io2 Ind].
@@ -288,6 +288,7 @@ Section P.
         eapply vinv_set_task; eauto; cbn; congruence.
     - (* LHandle *)
       destruct (a_alive (actors C st a)); [|discriminate].
+      destruct (a_started (actors C st a)); [|discriminate]. cbn [andb] in H.
       destruct (a_mbox (actors C st a)) as [|[s' r] q] eqn:M; [discriminate|].
       destruct (N.eqb s' s); [|discriminate]. inversion H; subst; clear H.
       apply vinv_set_actor_sub; [assumption|]. rewrite M. intros it Hin.
@@ -299,6 +300,10 @@ Section P.
     - (* LStop *)
       destruct (a_alive (actors C st a)); [|discriminate]. inversion H; subst; clear H.
       apply vinv_set_actor_sub; [assumption|]. intros it Hin. apply in_or_app. right. assumption.
+    - (* LStart *)
+      destruct (a_alive (actors C st a) && negb (a_started (actors C st a)))%bool; [|discriminate].
+      inversion H; subst; clear H.
+      apply vinv_set_actor_sub; [assumption|]. intros it Hin. assumption.
   Qed.
 
   (* ---------- refinement: every subscription, seen alone, runs Sub1 ---------- *)
@@ -320,7 +325,7 @@ Section P.
     VInv st -> okfor s a c st (l :: t) -> step st l = Some st' ->
     crun1 (cv c) (absv C s a st) (proj C s a l) = Some (absv C s a st') /\ okfor s a c st' t.
   Proof.
-    intros s a c st st' l t I Ok H. destruct l as [m|s' a' c'|s'|s'|a' s'|a']; cbn in H.
+    intros s a c st st' l t I Ok H. destruct l as [m|s' a' c'|s'|s'|a' s'|a'|a']; cbn in H.
     - (* LPublish *)
       cbn [proj]. destruct (Nat.eqb (rxcnt C st) 0) eqn:R; inversion H; subst; clear H.
       + split; [|exact Ok]. apply Nat.eqb_eq in R. cbn. unfold absv.
@@ -430,10 +435,11 @@ Section P.
           -- unfold okfor in *. cbn. rewrite (updf_other _ _ _ _ _ Hne). exact Ok.
     - (* LHandle *)
       destruct (a_alive (actors C st a')) eqn:Al; [|discriminate].
+      destruct (a_started (actors C st a')) eqn:Sd; [|discriminate]. cbn [andb] in H.
       destruct (a_mbox (actors C st a')) as [|[s'' r] q] eqn:M; [discriminate|].
       destruct (N.eqb s'' s') eqn:Ess; [|discriminate]. apply N.eqb_eq in Ess. subst s''.
       inversion H; subst; clear H.
-      assert (Okt : okfor s a c (set_actor C st a' (mkActor true q (a_got (actors C st a') ++ [(s', r)]))) t).
+      assert (Okt : okfor s a c (set_actor C st a' (mkActor true true q (a_got (actors C st a') ++ [(s', r)]))) t).
       { unfold okfor in *. cbn. exact Ok. }
       split; [|exact Okt]. cbn [proj]. destruct (N.eqb s' s) eqn:Es.
       + apply N.eqb_eq in Es. subst s'.
@@ -453,6 +459,13 @@ Section P.
         destruct (tasks C st s); reflexivity.
       + cbn. f_equal. unfold absv. cbn. rewrite updf_other; [reflexivity|].
         apply N.eqb_neq. apply N.eqb_neq in Ea. congruence.
+    - (* LStart: a Starting actor becomes Running; nothing the subscription sees changes *)
+      destruct (a_alive (actors C st a')) eqn:Al; [|discriminate].
+      destruct (a_started (actors C st a')) eqn:Sd; [discriminate|]. cbn in H.
+      inversion H; subst; clear H.
+      split; [|unfold okfor in *; cbn; exact Ok].
+      cbn. f_equal. unfold absv. cbn. unfold updf. destruct (N.eqb a a') eqn:Ea; [|reflexivity].
+      apply N.eqb_eq in Ea. subst a'. cbn. rewrite Al. reflexivity.
   Qed.
 
   Lemma sim_run_gen : forall s a c ls suffix (st st' : state),
@@ -500,6 +513,7 @@ Section P.
     - destruct (N.eqb s0 s); cbn; exact IH.
     - destruct (N.eqb s0 s); cbn; exact IH.
     - destruct (N.eqb a0 a); cbn; exact IH.
+    - cbn. exact IH.
   Qed.
 
   Lemma apubs_projs : forall s a ls, apubs (projs C s a ls) = pubs_after C s ls.
@@ -512,6 +526,7 @@ Section P.
     - destruct (N.eqb s0 s); cbn; exact IH.
     - destruct (N.eqb s0 s); cbn; exact IH.
     - destruct (N.eqb a0 a); cbn; exact IH.
+    - cbn. exact IH.
   Qed.
 
   Lemma conv_of_task : forall ls (st st' : state) s a c, VInv st -> okfor s a c st ls ->
